@@ -2,6 +2,7 @@ package props
 
 import (
 	"calcsa/engines/lexfsm"
+	"calcsa/engines/valtab"
 	"calcsa/engines/vmshape"
 )
 
@@ -9,9 +10,26 @@ func init() {
 	RegisterEngine(&Engine{Name: "lexfsm", Run: lexfsm.Run})
 	engineKinds["lexfsm"] = "finite-automaton extraction by abstract interpretation of the lexer's SSA; symbolic effect of one Lexer.Next iteration"
 
+	RegisterEngine(&Engine{Name: "valtab", Run: valtab.Run})
+	engineKinds["valtab"] = "operator table of package value by abstract interpretation of every operator method over kind pairs with symbolic payloads; compared with the documented algebra"
 	RegisterEngine(&Engine{Name: "vmshape", Run: vmshape.Run})
 	engineKinds["vmshape"] = "per-opcode effect summaries of the VM dispatch loop by abstract interpretation of vm.Run over a symbolic machine state; protocol rules on the summaries"
 
+	RegisterSpec(&Spec{
+		ID: "C11", Title: "Operators obey the documented value algebra on every operand pair",
+		Rules: []RuleRef{
+			{"valtab", "A1", 900, "every (operator, opcode, kind, kind) cell has exactly the documented cases: result kind, Go primitive applied, int->float promotion, error class; index bounds are exactly 0<=i<=j<=len / 0<=i<len"},
+			{"valtab", "A2", 1, "an integer / or % is never executed with a divisor that may be zero"},
+			{"valtab", "A3", 60, "== takes the same cases for (x,y) and (y,x); != is its negation on every cell"},
+			{"valtab", "A5", 2, "out-of-range shift counts are errors"},
+			{"valtab", "A6", 1, "no shift by a possibly negative signed count"},
+			{"vmshape", "V3", 70, "the VM hands the operands to the operator in (left, right) order with the opcode of the instruction"},
+		},
+		Technique:  "abstract interpretation of every operator method of package value over all kind pairs with symbolic payloads; the extracted case table is compared with the documented algebra written as data",
+		Decides:    "for all operand values: which cases every operator distinguishes on every pair of operand kinds, the Go primitive and conversions applied in each, the error class of every other pair, the zero-divisor guard, symmetry of == and != as its negation, and the exact index bounds; the VM side binding of operands to receiver/argument.",
+		NotDecided: "floating point results, overflow wrap-around and NaN ordering (Go semantics, trusted); element-wise array comparison is summarised (the recursive call is not unfolded); the laws about lengths of slices and concatenations follow from Go's slice semantics and are not re-derived.",
+		Assumptions: []string{"loops over array payloads are explored for 0 and 1 iterations, the recursive element comparison is treated as an opaque (bool, error) pair"},
+	})
 	RegisterSpec(&Spec{
 		ID: "C19", Title: "Runtime error reports point at the real failure",
 		Rules: []RuleRef{
